@@ -85,6 +85,13 @@ K05 = [
         "pkg/client.py": "from .util import helper\nfrom .sub.src import mover\ndef use():\n    return mover(helper())\n",
         "main.py": "from pkg import client\nimport util\nfrom pkg.sub import src\nprint(client.use(), util.{1}, src.stays())\n"}),
      lambda files: dict(api="move_global", path="pkg/sub/src.py", offset=files["pkg/sub/src.py"].index("mover"), dest="util.py")),
+    # the destination lies two packages deep and a client already imports from the top-level package
+    (Skeleton("v12_move_function_into_nested_package", {
+        "util.py": "def slug({0}):\n    return {0} + 1\n",
+        "app/__init__.py": "VERSION = 1\n", "app/core/__init__.py": "", "app/core/text.py": "{1} = 5\n",
+        "client.py": "from app import VERSION\nimport util\ndef use():\n    return util.slug(VERSION)\n",
+        "main.py": "import client\nfrom util import slug\nimport app.core.text\nprint(client.use(), slug(1), app.core.text.{1})\n"}),
+     lambda files: dict(api="move_global", path="util.py", offset=files["util.py"].index("slug"), dest="app/core/text.py")),
     # v02 without code left behind that uses the class: no import cycle (KF-C05-source-and-destination-import-each-other
     # makes every partition of v02 fail, so v02 alone cannot tell a second defect about moved classes)
     (Skeleton("v10_move_class_nothing_left_behind_uses_it", {
